@@ -96,8 +96,21 @@ pub fn case(ch: &mut Choices, ctx: &CaseCtx) -> CaseOut {
     let mut out = CaseOut::default();
     let compile_style = ch.bool();
     let family2 = ch.chance(1, 4);
-    let mut a = xs::fresh();
+    // 1 case in 6 works with a real file pulled in by require / include (needs the real words, not the stubs)
+    let with_file = !family2 && ch.chance(1, 6);
+    let mut a = if with_file {
+        let mut x = Xstate::boot().expect("boot");
+        x.intercept_stdout(true);
+        x
+    } else {
+        xs::fresh()
+    };
     a.set_insn_limit(Some(50_000)).unwrap();
+    let file_path = format!("{}/.run/c10-{}/lib.xeh", verif_root(), std::process::id());
+    if with_file {
+        let _ = std::fs::create_dir_all(format!("{}/.run/c10-{}", verif_root(), std::process::id()));
+        let _ = std::fs::write(&file_path, ": fromfile 41 ;\n7 var filevar\n");
+    }
     let mut log: Vec<String> = vec![format!("style: {}", if compile_style { "compile+run" } else { "eval" })];
     // ---- pre ------------------------------------------------------------------------------
     for _ in 0..ch.below(4) {
@@ -109,6 +122,15 @@ pub fn case(ch: &mut Choices, ctx: &CaseCtx) -> CaseOut {
         }
     }
     let _ = a.read_stdout();
+    // compile style: sometimes a source is compiled but not yet run when BAD arrives (its code is still pending)
+    if compile_style && !family2 && ch.chance(1, 4) {
+        let s = ["100 200", ": pend 5 ; pend", "\"pending\" print 300"][ch.below(3)];
+        log.push(format!("compiled, not yet run: {}", s));
+        if !matches!(guard(|| a.compile(s)), Ok(Ok(()))) {
+            out.fail("a well-formed pre source failed", log.join("\n"));
+            return out;
+        }
+    }
     let mut b = a.clone(); // the twin: same history without BAD
     // ---- BAD ------------------------------------------------------------------------------
     let mut open_structs = 0usize;
@@ -122,6 +144,9 @@ pub fn case(ch: &mut Choices, ctx: &CaseCtx) -> CaseOut {
             if ch.chance(1, 3) {
                 parts.push(COMPLETED[ch.below(COMPLETED.len())].to_string());
             }
+        }
+        if with_file {
+            parts.push(format!("{} {}", ["require", "include"][ch.below(2)], xs::str_lit(&file_path)));
         }
         let nopen = ch.weighted(&[3, 5, 3, 1]);
         for _ in 0..nopen {
@@ -225,7 +250,8 @@ pub fn case(ch: &mut Choices, ctx: &CaseCtx) -> CaseOut {
     let nprobes = 1 + ch.below(4);
     let mut probe_defines_or_inspects = false;
     for _ in 0..nprobes {
-        let p = PROBES[ch.below(PROBES.len())];
+        let file_probe = format!("require {} fromfile filevar", xs::str_lit(&file_path));
+        let p: &str = if with_file && ch.chance(1, 2) { &file_probe } else { PROBES[ch.below(PROBES.len())] };
         log.push(format!("probe: {}", p));
         if p.contains("var") || p.contains(": ") || p.contains("depth") {
             probe_defines_or_inspects = true;
